@@ -21,6 +21,8 @@ use chainsim::rt::{TxOpts, TxOutcome, World};
 
 pub const USD: u128 = 100_000_000_000_000_000_000;
 const E18: i128 = 1_000_000_000_000_000_000;
+/// (index token, long token, short token) of the deployed markets; tokens: 0 SOL(9), 1 USDC(6), 2 BTC(synthetic, 8), 3 ETH(8).
+pub const MARKETS: [(usize, usize, usize); 5] = [(0, 0, 1), (2, 0, 1), (0, 0, 0), (3, 3, 1), (3, 0, 3)];
 
 #[derive(Clone, Debug, Serialize, Deserialize)]
 pub struct Cfg {
@@ -143,7 +145,7 @@ impl Scenario for Exchange {
             let user = p.usize(0, cfg.n_users - 1);
             let market = p.usize(0, n_markets - 1);
             let w = match focus {
-                "C44" => *p.pick(&[12u64, 13, 14, 15, 16, 17, 30, 31, 40, 41, 42, 43, 44, 50, 51, 52, 53, 60, 2, 5]),
+                "C44" => *p.pick(&[12u64, 13, 22, 30, 40, 41, 42, 43, 44, 50, 51, 52, 60, 61, 62, 63, 64, 65, 66, 80, 2, 5]),
                 _ => p.below(100),
             };
             let s = match w {
@@ -196,21 +198,57 @@ impl Scenario for Exchange {
                 }
                 34..=55 => {
                     n_actions += 1;
-                    let kind = p.below(6) as u8;
+                    let kind = *p.pick(&[0u8, 0, 0, 1, 1, 2, 2, 2, 3, 4, 5]);
                     let is_swap = kind == 2 || kind == 5;
-                    Step::Order {
-                        user,
-                        market,
-                        kind,
-                        is_long: p.bool(),
-                        collat_long: p.bool(),
-                        collateral: if is_swap { p.log_u64(20_000_000_000) } else if p.chance(1, 8) { 0 } else { p.log_u64(50_000_000_000) },
-                        size_usd: if is_swap { 0 } else { p.log_u64(200_000) },
-                        path: if is_swap || (cfg.big_world && p.chance(1, 4)) { path(&mut p, n_markets) } else { vec![] },
-                        min_output: if p.chance(1, 6) { Some(u64::MAX / 4) } else if p.bool() { Some(0) } else { None },
-                        acceptable_cents: if p.chance(1, 8) { Some(1) } else { None },
-                        tin: if is_swap || p.chance(1, 5) { Some(p.usize(0, n_tokens - 1)) } else { None },
-                        tout: if is_swap || p.chance(1, 5) { Some(p.usize(0, n_tokens - 1)) } else { None },
+                    let mdef = MARKETS[market];
+                    if is_swap {
+                        // 60 %: a valid path found by walking the market list from a real token
+                        let tin = *p.pick(&[0usize, 1, 3][..if cfg.big_world { 3 } else { 2 }]);
+                        let (pth, tout) = if p.chance(3, 5) {
+                            let mut cur = tin;
+                            let mut pth = vec![];
+                            let hops = p.usize(1, if cfg.big_world { 3 } else { 1 });
+                            for _ in 0..hops {
+                                let cands: Vec<usize> = (0..n_markets).filter(|m| !pth.contains(m) && MARKETS[*m].1 != MARKETS[*m].2 && (MARKETS[*m].1 == cur || MARKETS[*m].2 == cur)).collect();
+                                if cands.is_empty() {
+                                    break;
+                                }
+                                let m = *p.pick(&cands);
+                                cur = if MARKETS[m].1 == cur { MARKETS[m].2 } else { MARKETS[m].1 };
+                                pth.push(m);
+                            }
+                            (pth, cur)
+                        } else {
+                            (path(&mut p, n_markets), p.usize(0, n_tokens - 1))
+                        };
+                        // amount worth 1 .. 20 000 USD of the input token
+                        let usd_cents = p.log_u64(2_000_000).max(100);
+                        let dec = [9u32, 6, 8, 8][tin];
+                        let amount = (usd_cents as u128 * 10u128.pow(dec) / cents[tin].max(1) as u128) as u64;
+                        Step::Order { user, market: pth.first().copied().unwrap_or(market), kind, is_long: true, collat_long: true, collateral: amount, size_usd: 0, path: pth, min_output: if p.chance(1, 6) { Some(u64::MAX / 4) } else { Some(0) }, acceptable_cents: None, tin: Some(tin), tout: Some(tout) }
+                    } else {
+                        let collat_long = p.bool();
+                        let ctoken = if collat_long { mdef.1 } else { mdef.2 };
+                        let collat_usd_cents = p.log_u64(1_000_000).max(500);
+                        let dec = [9u32, 6, 8, 8][ctoken];
+                        let collateral = (collat_usd_cents as u128 * 10u128.pow(dec) / cents[ctoken].max(1) as u128) as u64;
+                        let lev = *p.pick(&[1u64, 2, 5, 10, 20, 50, 90, 150]);
+                        let size_usd = (collat_usd_cents / 100).max(1) * lev;
+                        let dec_kind = kind == 1 || kind == 4;
+                        Step::Order {
+                            user,
+                            market,
+                            kind,
+                            is_long: p.bool(),
+                            collat_long,
+                            collateral: if dec_kind { if p.chance(1, 3) { collateral / 4 } else { 0 } } else if p.chance(1, 10) { 0 } else { collateral },
+                            size_usd: if dec_kind && p.chance(1, 3) { u64::MAX / 1_000_000_000 } else { size_usd },
+                            path: if cfg.big_world && p.chance(1, 5) { path(&mut p, n_markets) } else { vec![] },
+                            min_output: if p.chance(1, 8) { Some(u64::MAX / 4) } else { None },
+                            acceptable_cents: if p.chance(1, 8) { Some(1) } else { None },
+                            tin: if p.chance(1, 6) { Some(p.usize(0, n_tokens - 1)) } else { None },
+                            tout: if p.chance(1, 6) { Some(p.usize(0, n_tokens - 1)) } else { None },
+                        }
                     }
                 }
                 56..=77 => Step::Execute { slot: if p.chance(3, 4) { n_actions.saturating_sub(1) } else { p.usize(0, n_actions.max(1) - 1) }, throw: p.chance(1, 2) },
@@ -321,11 +359,10 @@ impl Sim {
         let mut w = World::new(1_700_000_000, 1000);
         let mut opts = DeployOpts::default();
         opts.tokens.push(TokenSpec { name: "BTC", decimals: 8, precision: 2, synthetic: true, schema: 3, heartbeat: 120 });
-        opts.markets = vec![(0, 0, 1), (2, 0, 1), (0, 0, 0)];
+        opts.markets = MARKETS[..3].to_vec();
         if cfg.big_world {
             opts.tokens.push(TokenSpec { name: "ETH", decimals: 8, precision: 3, synthetic: false, schema: 3, heartbeat: 120 });
-            opts.markets.push((3, 3, 1));
-            opts.markets.push((3, 0, 3));
+            opts.markets = MARKETS.to_vec();
         }
         opts.n_users = cfg.n_users;
         let d = deploy_full(&mut w, &opts);
